@@ -1220,8 +1220,16 @@ class Engine:
                 r = h(self, ctx, f, path, args, dty)
                 return self.finish_call(ctx, f, r, dest, ret_bb)
         # 2. trait call on a generic receiver: <F as FnMut<..>>::call_mut / <T as Trait>::m  -> dispatch on the value
-        m = re.match(r"^<(.*) as (.*)>::(\w+)", path, re.S)
-        if m and re.match(r"^(std::ops::)?(Fn|FnMut|FnOnce)<", m.group(2).strip()):
+        trait_part = None
+        if path.startswith("<"):
+            try:
+                j = parse.match_close(path, 0)
+                parts = split_top(path[1:j], " as ")
+                if len(parts) >= 2:
+                    trait_part = parts[1].strip()
+            except ValueError:
+                pass
+        if trait_part is not None and re.match(r"^(std::ops::)?(Fn|FnMut|FnOnce)<", trait_part):
             callee = args[0]
             if isinstance(callee, Ptr):
                 callee_v = self.load_ptr(ctx, callee)
